@@ -120,7 +120,7 @@ def run(ctx):
         ctx.sample({"program": cs[len(cs) // 2][0], "skip": cs[len(cs) // 2][1]})
     # correspondence model vs implementation, with skip sets
     if ctx.driver is not None:
-        sub = cs if ctx.tier == "thorough" or ctx.escalated else cs[:: max(1, len(cs) // 400)]
+        sub = cs if ctx.tier == "thorough" else cs[:: max(1, len(cs) // (1500 if ctx.escalated else 400))]
         ops = [{"op": "parse", "text": t, "filename": "f.h", "skip": s} for t, s in sub]
         res = ctx.driver.run(ops)
         mism = []
